@@ -166,6 +166,63 @@ def tok_programs(tier):
     return progs
 
 
+def tok_operator_programs():
+    """every operator that types over a move-only value as (a) the deferred FIRST operator of a later step, (b) the first operator of
+    step 0, (c) an instant operator in the middle of a step — over Option<Tok>, Result<Tok, i32> and Vec<Tok> iterators in the four
+    sequential / thread-spawning macros: no position of no operator may demand Copy / Clone (the value is moved through)."""
+    from .dsl import Wrap
+    progs = []
+    find0 = [Op("?@", [O("|t: &Tok| t.0 > 0")])]
+    OPT = [  # (label, items, tail bringing the value back to Option<Tok>)
+        ("map", [Op("|>", [O("|t: Tok| t.next(1)")])], []), ("and_then", [Op("=>", [O("|t: Tok| Some(t.next(2))")])], []),
+        ("inspect", [Op("??", [O("|o: &Option<Tok>| { ev(\"0.9.q\", o); }")])], []), ("filter", [Op("?>", [O("|t: &Tok| t.0 > 0")])], []),
+        ("or", [Op("<|", [O("None::<Tok>")])], []), ("or_else", [Op("<=", [O("|| None::<Tok>")])], []),
+        ("then", [Op("->", [O("|o: Option<Tok>| o.map(|t| t.next(3))")])], []), ("dot", [Op("..", [O("map(|t: Tok| t.next(4))")])], []),
+        ("zip", [Op(">^>", [O("Some(Tok::new(50))")])], [Op("|>", [O("|p: (Tok, Tok)| p.0")])]),
+        ("wrapmap", [Wrap("|>", [Op("->", [O("|t: Tok| t.next(5)")])], close=True)], []),
+        ("wrapand", [Wrap("=>", [Op("->", [O("|t: Tok| Some(t.next(5))")])], close=True)], []),
+    ]
+    RES = [
+        ("map", [Op("|>", [O("|t: Tok| t.next(1)")])], []), ("and_then", [Op("=>", [O("|t: Tok| Ok::<Tok, i32>(t.next(2))")])], []),
+        ("inspect", [Op("??", [O("|o: &Result<Tok, i32>| { ev(\"0.9.q\", o); }")])], []), ("map_err", [Op("!>", [O("|e: i32| e + 1")])], []),
+        ("or_else", [Op("<=", [O("|e: i32| Err::<Tok, i32>(e)")])], []), ("or", [Op("<|", [O("Err::<Tok, i32>(7)")])], []),
+        ("then", [Op("->", [O("|o: Result<Tok, i32>| o.map(|t| t.next(3))")])], []), ("dot", [Op("..", [O("map(|t: Tok| t.next(4))")])], []),
+    ]
+    ITER = [  # over vec![Tok..].into_iter(); the tails end in an Option<Tok> so that the try macros type
+        ("map", [Op("|>", [O("|t: Tok| t.next(1)")])], find0), ("filter", [Op("?>", [O("|t: &Tok| t.0 != 21")])], find0),
+        ("enumerate", [Op("|n>", [])], [Op("|>", [O("|p: (usize, Tok)| p.1")])] + find0),
+        ("find", [Op("?@", [O("|t: &Tok| t.0 > 20")])], []), ("find_map", [Op("?|>@", [O("|t: Tok| if t.0 > 20 { Some(t) } else { None }")])], []),
+        ("filter_map", [Op("?|>", [O("|t: Tok| if t.0 > 20 { Some(t.next(6)) } else { None }")])], find0),
+        ("chain", [Op(">@>", [O("vec![Tok::new(60)]")])], [Op("?@", [O("|t: &Tok| t.0 > 30")])]),
+        ("zip", [Op(">^>", [O("vec![Tok::new(61), Tok::new(62)]")])], [Op("|>", [O("|p: (Tok, Tok)| p.1")])] + find0),
+        ("fold", [Op("^@", [O("None::<Tok>"), O("|a: Option<Tok>, t: Tok| { drop(a); Some(t) }")])], []),
+        ("collect", [Op("=>[]", [O("Vec<Tok>")])], [Op("..", [O("into_iter()")]), Op("?@", [O("|t: &Tok| t.0 > 20")])]),
+        ("partition", [Op("?&!>", [O("|t: &Tok| t.0 > 20")])], [Op("->", [O("|p: (Vec<Tok>, Vec<Tok>)| p.0.into_iter().next()")])]),
+    ]
+    import copy
+    for fam, table, init in (("opt", OPT, "Some(Tok::new(1))"), ("res", RES, "Ok::<Tok, i32>(Tok::new(1))"), ("iter", ITER, "vec![Tok::new(1), Tok::new(21), Tok::new(22)].into_iter()")):
+        for label, items, tail in table:
+            for pos in ("stepstart", "first", "mid"):
+                for mac in ("join", "try_join", "join_spawn", "try_join_spawn"):
+                    if fam == "iter" and pos == "stepstart" and mac.startswith("try"):
+                        continue  # a try macro's step value is an Option / Result, not an iterator
+                    its = copy.deepcopy(items) + copy.deepcopy(tail)
+                    if pos == "stepstart":
+                        its[0].deferred = True
+                    elif pos == "mid":
+                        its = [Op("|>", [O("|t: Tok| t.next(8)")])] + its
+                    if fam == "res":
+                        other = Branch(O("Ok::<Tok, i32>(Tok::new(2))"), [Op("|>", [O("|t: Tok| t.next(9)")], deferred=True)])
+                    else:
+                        other = Branch(O("Some(Tok::new(2))"), [Op("|>", [O("|t: Tok| t.next(9)")], deferred=True)])
+                    p = Program(mac, [Branch(O(init), its), other], flavour=("Res" if fam == "res" else "Opt") if mac.startswith("try") else None)
+                    d, r = dsl.program_dsl(p), dsl.program_ref(p)
+                    fm = '\nformat!("{:?}", x)'
+                    progs.append(Prog("tokop/%s/%s/%s/%s" % (fam, label, pos, mac), "let x = %s;%s" % (r, fm), "let x = %s;%s" % (d, fm), [[0]],
+                                      "Full" if "spawn" not in mac else "Proj", meta={"macro": mac, "dsl": d, "ref": r}))
+    return progs
+
+
 RC_PRE = "use std::rc::Rc;\nfn call1<F: Fn(i32) -> i32>(f: F) -> i32 { f(1) }\nfn tail(d: &Vec<i32>) -> &[i32] { ev(\"0.0.f\", d); &d[1..] }\nfn inc(r: &mut i32) -> &mut i32 { *r += 1; r }\nfn dbl(r: &mut i32) -> i32 { *r *= 2; *r }\n"
 
 
